@@ -194,7 +194,7 @@ func (w *thWorld) exec(f []string) string {
 		}
 
 		return ans
-	case "avg":
+	case "avg", "avgf":
 		hh, _ := strconv.Atoi(f[1])
 		win := time.Duration(hh) * (w.unit() / 2)
 		lo := time.Now()
@@ -246,6 +246,10 @@ func (w *thWorld) exec(f []string) string {
 			w.fail("windowed-sum", fmt.Sprintf("after AveragePerSecond(%v) the running total is %d, the entries inside the window %s sum to %d", win, tot, thShow(w.live), want),
 				w.sig("AveragePerSecond", "total-field"))
 		}
+		if f[0] == "avgf" {
+			// the running total and the returned float32 itself (mantissa and exponent), compared with the model's two roundings
+			return strconv.FormatUint(thTotal(w.h), 10) + " " + f32String(got)
+		}
 		if want >= 1<<22 || hh < 0 {
 			// the total cannot be recovered from the float32 quotient with certainty (or the quotient is -0): the float is checked against the oracle
 			// above, the answer compared with the model is the running total itself
@@ -272,6 +276,24 @@ func thShow(l []thLive) string {
 	}
 
 	return out + "]"
+}
+
+// f32String prints a float32 as f<m>e<e> with value m*2^e and 2^23 <= m < 2^24 (f0e0 for +0).
+func f32String(x float32) string {
+	bits := math.Float32bits(x)
+	exp, frac := int(bits>>23)&0xff, int(bits&0x7fffff)
+	switch {
+	case bits == 0:
+		return "f0e0"
+	case bits>>31 != 0:
+		return "negative"
+	case exp == 0:
+		return "subnormal"
+	case exp == 0xff:
+		return "nan-or-inf"
+	}
+
+	return fmt.Sprintf("f%de%d", frac|1<<23, exp-127-23)
 }
 
 func (w *thWorld) nontrivial() bool { return w.avgs >= 2 && w.expired >= 1 }
@@ -307,7 +329,11 @@ func genTimeHeap(rng *hx.Rng, n int, first string, maxTick int) []string {
 			if far && rng.Chance(1, 3) {
 				h = hx.Pick(rng, []int{15, 101, 2001, 200001})
 			}
-			ops = append(ops, fmt.Sprintf("th avg %d", h))
+			if !real && rng.Chance(1, 2) {
+				ops = append(ops, fmt.Sprintf("th avgf %d", h))
+			} else {
+				ops = append(ops, fmt.Sprintf("th avg %d", h))
+			}
 		}
 		if !real && rng.Chance(1, 3) {
 			ops = append(ops, "th state")
@@ -340,6 +366,8 @@ var thContainer = container{
 		// the running total wraps around uint64 and comes back when the big entry leaves the window
 		{"th new shift", "th add 18446744073709551615", "th tick 1", "th add 7", "th state", "th avg 5", "th avg 1", "th state", "th avg -3", "th state", "th avg 3"},
 		{"th new shift", "th add 9223372036854775808", "th add 9223372036854775808", "th add 3", "th state", "th avg 3", "th tick 100000", "th add 1", "th avg 200001", "th avg 3", "th state"},
+		// the returned float32 itself: exact quotients, rounded quotients, totals beyond 2^24 (rounded before the division)
+		{"th new shift", "th add 5", "th avgf 1", "th avgf 3", "th add 2", "th avgf 5", "th add 16777217", "th avgf 7", "th add 18446744073692774391", "th avgf 9", "th avgf 200001"},
 		{"th new real", "th add 3", "th tick 1", "th add 4", "th avg 1", "th avg 5", "th clear", "th add 1", "th avg 3"},
 	},
 	rule: "at least two window queries and one entry that left the window",
